@@ -94,6 +94,28 @@ Theorem C02_no_error_all_executed : forall bs : bytes,
 Proof. exact no_error_all_executed. Qed.
 Print Assumptions C02_no_error_all_executed.
 
+(* The number of a "*" / "$" header is read as an UNBOUNDED decimal integer and then range-checked:
+   no arithmetic modulo 2^64.  For every integer z, its decimal rendering is accepted by the
+   model's strconv (atoi64, used by header_num) iff z itself is an int64 -- and then denotes z.
+   (The array header then requires 0 <= z, the bulk header -1 <= z <= 512 MB: RespModel.step.)
+   In particular 2^64 + 4, which a wrapping parser reads as 4, is not a length. *)
+Theorem C02_header_number_exact : forall z : Z,
+  atoi64 (z_to_dec z) = (if in_int64 z then Some z else None).
+Proof. intros z. unfold atoi64. rewrite parse_int_z_to_dec. reflexivity. Qed.
+Print Assumptions C02_header_number_exact.
+
+Theorem C02_header_number_in_range : forall (d : bytes) (z : Z),
+  atoi64 d = Some z <-> (parse_int_unbounded d = Some z /\ in_int64 z = true).
+Proof.
+  intros d z. unfold atoi64. destruct (parse_int_unbounded d) as [y|]; [|split; [discriminate|intros [H _]; discriminate H]].
+  destruct (in_int64 y) eqn:E; split.
+  - intros H; inversion H; subst; split; [reflexivity|exact E].
+  - intros [H _]; exact H.
+  - discriminate.
+  - intros [H H2]. inversion H; subst. rewrite E in H2. discriminate H2.
+Qed.
+Print Assumptions C02_header_number_in_range.
+
 (* ---------------------------------------------------------------- non-vacuity *)
 
 (* arguments holding NUL, CR, LF, 0xff, a fake header, and an empty argument satisfy cmd_ok *)
@@ -120,6 +142,15 @@ Example C02_ex_huge_bulk :
   events (bStar :: "1"%byte :: CRLF ++ bDollar :: z_to_dec int64_max ++ CRLF)
   = [EvProtoErr; EvEof].
 Proof. vm_compute. reflexivity. Qed.
+
+(* lengths that are small only modulo 2^64 are protocol errors: nothing is executed *)
+Example C02_ex_wrapped_lengths :
+  let ping := ["P"; "I"; "N"; "G"]%byte in
+  executed (bStar :: "1"%byte :: CRLF ++ bDollar :: z_to_dec (2^64 + 4) ++ CRLF ++ ping ++ CRLF) = []
+  /\ executed (bStar :: z_to_dec (2^64 + 1) ++ CRLF ++ bDollar :: "4"%byte :: CRLF ++ ping ++ CRLF) = []
+  /\ executed (bStar :: "1"%byte :: CRLF ++ bDollar :: z_to_dec (2 * 2^64 + 4) ++ CRLF ++ ping ++ CRLF) = []
+  /\ atoi64 (z_to_dec (2^64 + 4)) = None.
+Proof. repeat split; vm_compute; reflexivity. Qed.
 
 (* a command after the malformed part is parsed by the goroutine but never executed *)
 Example C02_ex_nothing_after_error :
